@@ -181,22 +181,25 @@ def rel_cst(rng, nv, shape):
     return "C le E 2 %d %d %d %d %d" % (rng.choice([1, -1, 2, -2]), a, rng.choice([1, -1, 3, -3]), b, k)
 
 
-def rel_chains(seed, n, steps, maxvars=3):
-    """r0 := r0 widen r1 for `steps` steps; r1 is re-randomised at every step as a bounded
-    box plus relational constraints, or as a transformed copy of r0 (the way an analysis
-    produces the next iterate).  After each step: stationarity (q_leq 0 2 with r2 the old
-    value), soundness (q_leq 1 0) and the exported constraints."""
+def rel_chains(seed, n, steps=None, maxvars=3, k=1):
+    """r0 := r0 widen r1, repeatedly.  r1 is re-made at every step: mostly as a transformed
+    copy of r0 (the way an analysis produces the next iterate; most transformations are
+    x := x +- c, under which a join would grow for ever), sometimes as a fresh bounded box
+    with relational constraints.  After each step: stationarity (q_leq 0 2 with r2 the old
+    value), the exported constraints, and q_leq 1 0.  The number of steps is three times
+    the stabilisation bound of the chain (chain_bound) unless given."""
     rng = random.Random(seed)
     out = []
     for _ in range(n):
-        nv = rng.randint(1, maxvars)
+        thr = rng.random() < 0.3
+        nv = rng.randint(1, 2 if thr else maxvars)
+        ths = sorted(set(rng.choice([-100, -10, 10, 50, 1000]) for _ in range(rng.randint(1, 2)))) if thr else []
+        nsteps = steps or (3 * chain_bound(nv, len(ths), k) + 10)
         ops = []
         for v in range(nv):
             ops.append("assign 0 %d E 0 %d" % (v, rng.randint(-5, 5)))
-        thr = rng.random() < 0.3
-        ths = sorted(set(rng.choice([-100, -10, -1, 1, 2, 5, 10, 50, 1000]) for _ in range(rng.randint(0, 5))))
-        for _ in range(steps):
-            if rng.random() < 0.5:
+        for _ in range(nsteps):
+            if rng.random() < 0.2:
                 ops.append("top 1")
                 for v in range(nv):
                     if rng.random() < 0.9:
@@ -209,13 +212,15 @@ def rel_chains(seed, n, steps, maxvars=3):
                 ops.append("copy 1 0")
                 for _ in range(rng.randint(1, 2)):
                     x = rng.randrange(nv); y = rng.randrange(nv)
-                    ops.append(rng.choice([
-                        "assign 1 %d E 1 1 %d %d" % (x, y, rng.choice([1, -1, 2, 3])),
-                        "arith 1 add %d %d k %d" % (x, y, rng.choice([1, -1, 5])),
-                        "arith 1 add %d %d v %d" % (x, y, rng.randrange(nv)),
-                        "arith 1 sub %d %d v %d" % (x, y, rng.randrange(nv)),
-                        "assume 1 1 %s" % rel_cst(rng, nv, rng.random()),
-                    ]))
+                    if rng.random() < 0.65:
+                        ops.append("arith 1 %s %d %d k %d" % (rng.choice(["add", "sub"]), x, x, rng.choice([1, 1, 2, 5])))
+                    else:
+                        ops.append(rng.choice([
+                            "assign 1 %d E 1 1 %d %d" % (x, y, rng.choice([1, -1, 2, 3])),
+                            "arith 1 add %d %d v %d" % (x, y, rng.randrange(nv)),
+                            "arith 1 sub %d %d v %d" % (x, y, rng.randrange(nv)),
+                            "assume 1 1 %s" % rel_cst(rng, nv, rng.random()),
+                        ]))
             ops.append("copy 2 0")
             if thr:
                 ops.append("widenthr 0 0 1 %d %s" % (len(ths), " ".join(map(str, ths))))
@@ -282,7 +287,7 @@ def rel_chain_oracle(line, ans, rng=None, k=1, sound=True, complete_leq=False):
                     ns_print += 1
             prev = cur; cur = None
     nthr = max([int(o.split()[4]) for o in ops[1:] if o.startswith("widenthr")] + [0])
-    bound = chain_bound(nv + 2, nthr, k)
+    bound = chain_bound(nv, nthr, k)      # the two boolean variables are never constrained
     if ns > bound:
         return ("step %d (widen) of: %s: %d non-stationary widening steps out of %d (bound %d for %d variables), the last at step %d; "
                 "in %d of them the printed value changed: the chain does not stabilise%s"
